@@ -10,8 +10,8 @@ use std::collections::BTreeMap;
 type F = FlatEx<Sym, SymOps, NumberMatcher>;
 type D<'a> = DeepEx<'a, Sym, SymOps, NumberMatcher>;
 
-pub fn gen(r: &mut Rng, tier: &str, i: usize, stats: &mut BTreeMap<String, u64>) -> String {
-    let base = crate::k_flat::gen(r, tier, i, stats);
+pub fn gen(r: &mut Rng, tier: &str, i: usize, stats: &mut BTreeMap<String, u64>, profile: &str) -> String {
+    let base = crate::k_flat::gen_profile(r, tier, i, stats, profile);
     let n = r.below(7);
     let mut hist = String::new();
     for _ in 0..n {
